@@ -14,7 +14,7 @@ use compio_io::{
     ancillary::{AncillaryBuf, AncillaryBuilder, AncillaryData, AncillaryIter, CodecError},
     framed::{
         Framed,
-        codec::bytes::BytesCodec,
+        codec::{Decoder, Encoder, bytes::BytesCodec},
         frame::{AnyDelimited, CharDelimited, Framer, LengthDelimited, NoopFramer},
     },
 };
@@ -181,7 +181,19 @@ fn encode_with<F: Framer<Vec<u8>> + Unpin>(framer: F, pipe: &Shared, frames: &[V
 
 /// stream side: poll until the stream ends; `[nitems; items..; nreads; remaining]`
 fn decode_with<F: Framer<Vec<u8>> + Unpin>(framer: F, pipe: &Shared, out: &mut Vec<u64>) -> bool {
-    let mut framed = Framed::symmetric::<Bytes>(BytesCodec::new(), framer).with_reader(pipe.clone());
+    decode_generic(BytesCodec::new(), framer, pipe, out)
+}
+
+fn decode_probe_with<F: Framer<Vec<u8>> + Unpin>(framer: F, pipe: &Shared, out: &mut Vec<u64>) -> bool {
+    decode_generic(ProbeCodec, framer, pipe, out)
+}
+
+fn decode_generic<C, F>(codec: C, framer: F, pipe: &Shared, out: &mut Vec<u64>) -> bool
+where
+    C: Decoder<Bytes, Vec<u8>, Error = std::io::Error> + Unpin,
+    F: Framer<Vec<u8>> + Unpin,
+{
+    let mut framed = Framed::new::<(), Bytes>(codec, framer).with_reader(pipe.clone());
     let mut items: Vec<u64> = Vec::new();
     let mut n = 0u64;
     let mut hang = false;
@@ -248,6 +260,169 @@ fn extract_with<F: Framer<Vec<u8>>>(mut framer: F, begin: usize, data: Vec<u8>, 
             let _ = total;
         }
         Err(e) => out.extend_from_slice(&[1, code_of(e.kind())]),
+    }
+}
+
+// ---------------------------------------------------------------------------
+// a codec that can fail: `encode` writes the first k bytes of a flagged item
+// into the buffer and then returns an error (as a serialiser does when it hits
+// an unrepresentable value half way); `decode` rejects frames starting with 255
+
+struct ProbeCodec;
+
+struct SItem {
+    data: Vec<u8>,
+    fail: Option<usize>,
+}
+
+impl Encoder<SItem, Vec<u8>> for ProbeCodec {
+    type Error = std::io::Error;
+
+    fn encode(&mut self, item: SItem, buf: &mut Vec<u8>) -> Result<(), Self::Error> {
+        match item.fail {
+            None => {
+                IoBufMutExt::extend_from_slice(buf, &item.data).expect("reserve");
+                Ok(())
+            }
+            Some(k) => {
+                let k = k.min(item.data.len());
+                IoBufMutExt::extend_from_slice(buf, &item.data[..k]).expect("reserve");
+                Err(mk_err(22))
+            }
+        }
+    }
+}
+
+impl Decoder<Bytes, Vec<u8>> for ProbeCodec {
+    type Error = std::io::Error;
+
+    fn decode(&mut self, buf: &compio_buf::Slice<Vec<u8>>) -> Result<Bytes, Self::Error> {
+        let s: &[u8] = buf;
+        if s.first() == Some(&255) {
+            Err(mk_err(22))
+        } else {
+            Ok(Bytes::from(s.to_vec()))
+        }
+    }
+}
+
+/// scripted writer with an event log (same conventions as the C11 harness):
+/// (0, n) accept at most n bytes (0 = Ok(0)); (1, kind) error; (2, _) Pending
+/// once, then the next answer; exhausted script accepts nothing
+#[derive(Default)]
+struct WScript {
+    sched: VecDeque<(u64, u64)>,
+    log: Vec<Vec<u64>>,
+}
+
+#[derive(Clone, Default)]
+struct LogWriter(Rc<RefCell<WScript>>);
+
+struct YieldOnce(bool);
+
+impl std::future::Future for YieldOnce {
+    type Output = ();
+
+    fn poll(mut self: std::pin::Pin<&mut Self>, cx: &mut std::task::Context<'_>) -> std::task::Poll<()> {
+        if self.0 {
+            std::task::Poll::Ready(())
+        } else {
+            self.0 = true;
+            cx.waker().wake_by_ref();
+            std::task::Poll::Pending
+        }
+    }
+}
+
+impl AsyncWrite for LogWriter {
+    async fn write<T: IoBuf>(&mut self, buf: T) -> BufResult<usize, T> {
+        loop {
+            let a = self.0.borrow_mut().sched.pop_front();
+            match a {
+                None => return BufResult(Ok(0), buf),
+                Some((0, n)) => {
+                    let s = buf.as_init();
+                    let k = (n as usize).min(s.len());
+                    if k > 0 {
+                        let mut e = vec![1, k as u64];
+                        e.extend(s[..k].iter().map(|&b| b as u64));
+                        self.0.borrow_mut().log.push(e);
+                    }
+                    return BufResult(Ok(k), buf);
+                }
+                Some((1, kind)) => return BufResult(Err(mk_err(kind)), buf),
+                Some(_) => YieldOnce(false).await,
+            }
+        }
+    }
+
+    async fn flush(&mut self) -> IoResult<()> {
+        self.0.borrow_mut().log.push(vec![2]);
+        Ok(())
+    }
+
+    async fn shutdown(&mut self) -> IoResult<()> {
+        self.0.borrow_mut().log.push(vec![3]);
+        Ok(())
+    }
+}
+
+enum SOp {
+    Feed(SItem),
+    Send(SItem),
+    Flush,
+    Close,
+}
+
+fn dec_sitem(c: &mut Case) -> Result<SItem, BadCase> {
+    let fail = c.take()?;
+    let k = c.take()? as usize;
+    let data = byte_vec(c.bytes()?)?;
+    if fail > 1 {
+        return Err(BadCase);
+    }
+    Ok(SItem {
+        data,
+        fail: if fail == 1 { Some(k) } else { None },
+    })
+}
+
+fn dec_sops(c: &mut Case) -> Result<Vec<SOp>, BadCase> {
+    let n = c.take()? as usize;
+    let mut v = Vec::new();
+    for _ in 0..n {
+        v.push(match c.take()? {
+            1 => SOp::Feed(dec_sitem(c)?),
+            2 => SOp::Send(dec_sitem(c)?),
+            3 => SOp::Flush,
+            4 => SOp::Close,
+            _ => return Err(BadCase),
+        });
+    }
+    Ok(v)
+}
+
+/// the real Framed sink driven by a program of feed / send / flush / close
+fn sink_with<F: Framer<Vec<u8>> + Unpin>(framer: F, w: &LogWriter, ops: Vec<SOp>, out: &mut Vec<u64>) {
+    let mut framed = Framed::new::<SItem, Bytes>(ProbeCodec, framer).with_writer(w.clone());
+    block_on(async {
+        for op in ops {
+            let r = match op {
+                SOp::Feed(it) => framed.feed(it).await,
+                SOp::Send(it) => framed.send(it).await,
+                SOp::Flush => SinkExt::<SItem>::flush(&mut framed).await,
+                SOp::Close => SinkExt::<SItem>::close(&mut framed).await,
+            };
+            match r {
+                Ok(()) => out.extend_from_slice(&[0, 0]),
+                Err(e) => out.extend_from_slice(&[1, code_of(e.kind())]),
+            }
+        }
+    });
+    let st = w.0.borrow();
+    out.push(st.log.len() as u64);
+    for e in &st.log {
+        out.extend_from_slice(e);
     }
 }
 
@@ -652,6 +827,34 @@ fn run(case: &[u64]) -> Result<Vec<u64>, BadCase> {
             let data = byte_vec(c.rest())?;
             let d = DynBuf::from_bytes(&data);
             iterate(d.as_init(), None, want, &mut out);
+        }
+        8 => {
+            // sink program with the failing codec: framer, ops, writer script
+            let fr = dec_framer(&mut c)?;
+            let ops = dec_sops(&mut c)?;
+            let n = c.take()? as usize;
+            let sched = c.sched(n)?;
+            if sched.iter().any(|&(k, _)| k > 2) {
+                return Err(BadCase);
+            }
+            let w = LogWriter::default();
+            w.0.borrow_mut().sched = sched;
+            dispatch!(&fr, sink_with, &w, ops, &mut out);
+        }
+        9 => {
+            // decode with the failing decoder: framer, schedule, bytes
+            let fr = dec_framer(&mut c)?;
+            let sched = dec_sched(&mut c)?;
+            let data = byte_vec(c.rest())?;
+            let pipe = Shared::default();
+            {
+                let mut p = pipe.0.borrow_mut();
+                p.sched = sched;
+                p.data = data;
+            }
+            if !dispatch!(&fr, decode_probe_with, &pipe, &mut out) {
+                return Ok(HANG.to_vec());
+            }
         }
         _ => return Err(BadCase),
     }
